@@ -1105,7 +1105,7 @@ theorem SimN.of_fine_vec (x : R (List Val)) (hx : Fine x) :
 theorem bulk_sim (renv : REnv) (t' : RTy) (p : Prim) (n : Nat) (s2 : St) (hg2 : Good2 s2)
     (hp : acceptsPrimitive renv (resolveDepth renv) t' p = some true) :
     SimN Flags.clear ((bulkElems renv .all t' Flags.clear p n s2).map fun q => (Val.vec q.1, Flags.clear))
-      (if n * (3 + (primSize p).getD 1) > usizeMax then .err .other else
+      (if n * (3 + (primSize p).getD 1) > usizeMax then .err .limit else
         (addCost (up s2) (n * (3 + (primSize p).getD 1))).bind fun _ s3 =>
           if n * (primSize p).getD 1 > s3.input.length then .err .eof
           else (iterV (fun st => rd (decPrim p) st) n s3).map Val.vec) := by
